@@ -10,7 +10,7 @@
    Where a statement needs the digest to be collision-free this is an explicit
    premise of that clause. *)
 From Coq Require Import Sorting.Permutation.
-From Oras Require Import Base.Prelude Base.Regex Base.StrCheck Generated.GC19 Model.Pack Proofs.Pack Proofs.PackTime Proofs.PackJson Proofs.PackTie Model.PackEnc Proofs.PackEnc.
+From Oras Require Import Base.Prelude Base.Regex Base.StrCheck Generated.GC19 Model.Pack Proofs.Pack Proofs.PackTime Proofs.PackJson Proofs.PackTie Model.PackEnc Model.PackSha Proofs.PackEnc.
 
 (* The media-type check accepts exactly RFC 6838 section 4.2:
    restricted-name "/" restricted-name, each 1..127 characters. *)
@@ -555,6 +555,28 @@ Theorem C19_annotation_order_independent_json :
     json_manifest m1 = json_manifest m2.
 Proof. exact deterministic_perm_json. Qed.
 Print Assumptions C19_annotation_order_independent_json.
+
+(* The executable instance: json.Marshal (Model/PackEnc.v) and digest.FromBytes (SHA-256, Model/PackSha.v)
+   are both modelled and compared with the implementation (stored bytes, descriptor size and, on a sample,
+   the descriptor digest).  The one hypothesis about the digest holds for it by computation, so every
+   theorem above applies to it; in particular the returned descriptor is computed by the model. *)
+Theorem C19_sha256_of_empty_json :
+  digest_of empty_json = empty_json_digest.
+Proof. exact digest_of_empty_json. Qed.
+Print Assumptions C19_sha256_of_empty_json.
+
+Theorem C19_executable_instance_consistent :
+  forall f tc fa s at_ o now s' d m,
+    pack json_manifest digest_of f tc fa s at_ o now = (s', Ok d m) ->
+    exists ann,
+      ensure_created (o_ann o) (created_key f) now = Some ann /\
+      m = requested_manifest digest_of f at_ o ann /\
+      d_dg d = digest_of (json_manifest m) /\
+      d_sz d = Z.of_nat (length (json_manifest m)) /\
+      d_mt d = kind_mt (m_kind m) /\ d_ann d = m_ann m /\
+      stored (t_key tc) (s_store s') d = true.
+Proof. exact executable_instance_consistent. Qed.
+Print Assumptions C19_executable_instance_consistent.
 
 (* ---------- the hypotheses are satisfiable, the statements are not vacuous ---------- *)
 
